@@ -87,8 +87,8 @@ class TranslateError(Exception):
 
 
 STR, INT, BOOL, PAT, PATS, DYN, NONE, MATCH = "str", "int", "bool", "pat", "pats", "dyn", "none", "match"
-ITEM, KEYS, VERSION, OTABLE, OENTRY, OEX, FLOATV, REGEX, TPL, ARR, CURVE = \
-    "item", "keys", "version", "otable", "oentry", "oex", "floatv", "regex", "tpl", "arr", "curve"
+ITEM, KEYS, VERSION, OTABLE, OENTRY, OEX, FLOATV, REGEX, TPL, ARR, CURVE, SAMPLE = \
+    "item", "keys", "version", "otable", "oentry", "oex", "floatv", "regex", "tpl", "arr", "curve", "sample"
 
 
 def LIST(t):
@@ -114,7 +114,8 @@ def TUPLE(*ts):
 SIMPLE_TYPE = {STR: "list N", INT: "Z", BOOL: "bool", PAT: "list frag", PATS: "list (list frag)", DYN: "V",
                ITEM: "py_item V", KEYS: "py_keys", VERSION: "las_version",
                OTABLE: "list ((las_version * list N) * order_entry)", OENTRY: "order_entry",
-               OEX: "(item_order * list (list N))", FLOATV: "F", REGEX: "re", TPL: "list tpl", ARR: "A", CURVE: "C"}
+               OEX: "(item_order * list (list N))", FLOATV: "F", REGEX: "re", TPL: "list tpl", ARR: "A", CURVE: "C",
+               SAMPLE: "Smp"}
 
 
 def is_type(ty, kind):
@@ -291,6 +292,16 @@ Record read_ops (V A C : Type) := mk_read_ops {
   sec_append : list C -> C -> list C }.
 Arguments arr_is_float {V A C}. Arguments arr_null_to_nan {V A C}. Arguments arr_len {V A C}.
 Arguments arr_nan {V A C}. Arguments c_set_data {V A C}. Arguments c_new {V A C}. Arguments sec_append {V A C}.
+(* str.rjust(w); what writer.write asks of a sample (Smp) and of its helpers: np.isnan(x) and fmt % x
+   (None: TypeError, e.g. on text), str(x), fmt % np.pi, TextWrapper(width=w, ...).wrap(line) *)
+Definition pyo_rjust (s : list N) (w : Z) : list N := List.repeat 32 (Z.to_nat (w - pyo_len s)) ++ s.
+Record write_ops (Smp : Type) := mk_write_ops {
+  s_isnan : Smp -> option bool;
+  s_fmt : list N -> Smp -> option (list N);
+  s_str : Smp -> list N;
+  w_fmt_pi : list N -> list N;
+  w_wrap : Z -> list N -> list (list N) }.
+Arguments s_isnan {Smp}. Arguments s_fmt {Smp}. Arguments s_str {Smp}. Arguments w_fmt_pi {Smp}. Arguments w_wrap {Smp}.
 (* what las._json_value asks of a header value or sample: isinstance(x, np.integer),
    isinstance(x, (float, np.floating)), np.isfinite(x), int(x), float(x), None *)
 Record json_ops (V : Type) := mk_json_ops {
@@ -332,8 +343,10 @@ class NeedPartial(Exception):
 class E:
     """translated expression: Gallina code, type, partial (code has type option T)"""
 
-    def __init__(self, code, ty, partial=False, const=None):
-        self.code, self.ty, self.partial, self.const = code, ty, partial, const
+    def __init__(self, code, ty, partial=False, const=None, exc=None):
+        # exc: the class of the exception a partial expression raises when it is None
+        # ("?" = unknown / several)
+        self.code, self.ty, self.partial, self.const, self.exc = code, ty, partial, const, exc
 
 
 def indent(code, n=2):
@@ -367,6 +380,7 @@ class Tr:
         self.in_try = 0
         self.uses_rec = False    # the function calls itself (translated with fuel)
         self.loop_ret = []       # inside loops with a return: is the context around the loop partial?
+        self.handlers = []       # enclosing `try ... except <Class>:` handlers, innermost last
 
     # ---- helpers ---------------------------------------------------------------------------
     def fresh(self):
@@ -384,6 +398,26 @@ class Tr:
             self.err(node, "an operation that may raise inside a loop with a return")
         if not self.pmode[-1]:
             raise NeedPartial()
+
+    def route(self, e, node):
+        """the enclosing handler that catches what the partial expression e raises (None: it propagates)"""
+        if not self.handlers:
+            return None
+        if e.exc in (None, "?"):
+            self.err(node, "inside try/except: cannot tell which exception this operation raises")
+        for h in reversed(self.handlers):
+            if e.exc in h["classes"]:
+                return h
+        return None
+
+    def handled(self, h, env):
+        """the code of handler h (its body, then what follows the try) entered with the variables as they are now"""
+        i = self.handlers.index(h)
+        saved, self.handlers = self.handlers, self.handlers[:i]
+        try:
+            return h["fn"](env)
+        finally:
+            self.handlers = saved
 
     def snapshot(self):
         return (len(self.regexes), list(self.frags), dict(self.frag_src), self.uses_dyn, self.in_try)
@@ -425,15 +459,16 @@ class Tr:
         code = "Some (%s)" % build(names)
         for c, t in reversed(binds):
             code = "obind (%s) (fun %s => %s)" % (c, t, code)
-        return E(code, ty, True)
+        excs = {a.exc or "?" for a in args if a.partial}
+        return E(code, ty, True, exc=excs.pop() if len(excs) == 1 else "?")
 
-    def partial_op(self, args, build, ty):
-        """a strict operation whose own result is an option (None: it raises)"""
+    def partial_op(self, args, build, ty, exc="?"):
+        """a strict operation whose own result is an option (None: it raises exc)"""
         inner = self.strict(args, build, ty)
         if not inner.partial:
-            return E(inner.code, ty, True)
+            return E(inner.code, ty, True, exc=exc)
         t = self.fresh()
-        return E("obind (%s) (fun %s => %s)" % (inner.code, t, t), ty, True)
+        return E("obind (%s) (fun %s => %s)" % (inner.code, t, t), ty, True, exc=exc if inner.exc == exc else "?")
 
     def var(self, name):
         return "v_" + name
@@ -446,9 +481,10 @@ class Tr:
 
     # ---- expressions -----------------------------------------------------------------------
     def expr(self, n, env):
-        for src, (code, ty) in self.spec.get("const_exprs", {}).items():
+        for src, ce in self.spec.get("const_exprs", {}).items():
             if same_ast(n, src):
-                return E(code, ty)
+                # (code, type) or (code, type, the exception class when code is an option)
+                return E(ce[0], ce[1]) if len(ce) == 2 else E(ce[0], ce[1], True, exc=ce[2])
         if isinstance(n, ast.Name):
             if n.id not in env:
                 self.err(n, "unknown name %r" % n.id)
@@ -520,6 +556,12 @@ class Tr:
             return E("([] : list (list frag))", PATS)
         if isinstance(n, ast.List) and n.elts and all(isinstance(x, ast.Constant) and isinstance(x.value, str) for x in n.elts):
             return E("[" + "; ".join(cstr(x.value) for x in n.elts) + "]", LIST(STR))
+        if isinstance(n, ast.List) and n.elts:
+            es = [self.expr(x, env) for x in n.elts]
+            ty = self.unify([e.ty for e in es], n)
+            es = [self.coerce(e, ty, n) for e in es]
+            self.ctype(ty, n)
+            return self.strict(es, lambda c: "[" + "; ".join(c) + "]", LIST(ty))
         if isinstance(n, ast.ListComp):
             return self.listcomp(n, env)
         if isinstance(n, ast.DictComp):
@@ -637,7 +679,7 @@ class Tr:
 
     def truthy(self, e, node):
         if e.ty in (BOOL, MATCH):
-            return E(e.code, BOOL, e.partial)
+            return E(e.code, BOOL, e.partial, exc=e.exc)
         if e.ty == STR:
             return self.strict([e], lambda c: "pyo_truthy_str (%s)" % c[0], BOOL)
         if e.ty == INT:
@@ -723,6 +765,9 @@ class Tr:
         if isinstance(op, (ast.In, ast.NotIn)):
             if a.ty == STR and b.ty == STR:
                 return self.strict([a, b], lambda c: wrap("pyo_in (%s) (%s)" % (c[0], c[1])), BOOL)
+            if is_type(b.ty, "dict") and a.ty == b.ty[1]:
+                pre = self.dict_prefix(b.ty, n)
+                return self.strict([b, a], lambda c: wrap("pyo_is_some (%s_item (%s) (%s))" % (pre, c[0], c[1])), BOOL)
             if a.ty == STR and b.ty == LIST(STR):
                 return self.strict([a, b], lambda c: wrap("pyo_in_list (%s) (%s)" % (c[0], c[1])), BOOL)
             self.err(n, "in on %s and %s" % (a.ty, b.ty))
@@ -825,12 +870,12 @@ class Tr:
             pre = self.dict_prefix(s.ty, n)
             if k.ty != s.ty[1]:
                 self.err(n, "dict key of type %s" % (k.ty,))
-            return self.partial_op([s, k], lambda c: "%s_item (%s) (%s)" % (pre, c[0], c[1]), s.ty[2])
+            return self.partial_op([s, k], lambda c: "%s_item (%s) (%s)" % (pre, c[0], c[1]), s.ty[2], exc="KeyError")
         if is_type(s.ty, "list") and not isinstance(sl, (ast.Slice, ast.Tuple)):
             i = self.expr(sl, env)
             if i.ty != INT:
                 self.err(n, "list index of type %s" % (i.ty,))
-            return self.partial_op([s, i], lambda c: "pyo_list_item (%s) (%s)" % (c[0], c[1]), s.ty[1])
+            return self.partial_op([s, i], lambda c: "pyo_list_item (%s) (%s)" % (c[0], c[1]), s.ty[1], exc="IndexError")
         if s.ty != STR:
             self.err(n, "subscript on %s" % (s.ty,))
         if isinstance(sl, ast.Slice):
@@ -844,7 +889,7 @@ class Tr:
         if i.ty != INT:
             self.err(n, "index of type %s" % (i.ty,))
         # s[i] may raise IndexError
-        return self.partial_op([s, i], lambda c: "pyo_item (%s) %s" % (c[0], c[1]), STR)
+        return self.partial_op([s, i], lambda c: "pyo_item (%s) %s" % (c[0], c[1]), STR, exc="IndexError")
 
     def call_registered(self, qname, args, node):
         """a call of another translated function"""
@@ -873,7 +918,44 @@ class Tr:
             return self.partial_op(args, build, r["ret"])
         return self.strict(args, build, r["ret"])
 
+    def local_call(self, n, env):
+        """a call of a function defined earlier in the same big function and translated on its own (NestedDefTr):
+        positional and keyword arguments, the def's defaults for the rest, then the enclosing variables it reads"""
+        name = n.func.id
+        callee = [sp for sp in SPECS if sp.get("nested_name") == name and sp["py"] == self.spec["py"]]
+        if len(callee) != 1:
+            self.err(n, "no translated nested function %s" % name)
+        callee = callee[0]
+        names = [p for p, _ in callee["params"]]
+        own, free = names[:callee["n_own"]], names[callee["n_own"]:]
+        given = {}
+        if len(n.args) > len(own):
+            self.err(n, "too many arguments for %s" % name)
+        for p, a in zip(own, n.args):
+            given[p] = a
+        for kw in n.keywords:
+            if kw.arg not in own or kw.arg in given:
+                self.err(n, "keyword argument %s of %s" % (kw.arg, name))
+            given[kw.arg] = kw.value
+        args = []
+        for p in own:
+            if p in given:
+                args.append(self.expr(given[p], env))
+            elif p in callee.get("def_defaults", {}):
+                # the default was evaluated when the def ran: its variables must still hold that value here
+                # (NestedDefTr checks that nothing assigns them after the def)
+                args.append(self.expr(ast.parse(callee["def_defaults"][p], mode="eval").body, env))
+            else:
+                self.err(n, "missing argument %s of %s" % (p, name))
+        for p in free:
+            if env.get(p) is None:
+                self.err(n, "%s reads %s, which is not defined here" % (name, p))
+            args.append(E(self.var(p), env[p]))
+        return self.call_registered("%s.%s" % (self.spec["py"], name), args, n)
+
     def call(self, n, env):
+        if isinstance(n.func, ast.Name) and n.func.id in self.spec.get("local_calls", ()) and n.func.id not in env:
+            return self.local_call(n, env)
         if n.keywords:
             self.err(n, "keyword arguments")
         f = n.func
@@ -881,7 +963,7 @@ class Tr:
         oracles = self.spec.get("oracles", {})
         if fsrc in oracles and (not isinstance(f, ast.Name) or f.id not in env):
             o = oracles[fsrc]
-            if o["raises"]:
+            if o["raises"] and "exc" not in o:
                 self.err(n, "%s(...) may raise: only translated as the sole statement of a try" % fsrc)
             return self.oracle(n, env)
         if isinstance(f, ast.Name):
@@ -916,7 +998,7 @@ class Tr:
                 a = self.expr(n.args[0], env)
                 if a.ty != LIST(INT):
                     self.err(n, "max of %s" % (a.ty,))
-                return self.partial_op([a], lambda c: "pyo_max (%s)" % c[0], INT)      # ValueError on []
+                return self.partial_op([a], lambda c: "pyo_max (%s)" % c[0], INT, exc="ValueError")
             if f.id == "isinstance" and len(n.args) == 2 and isinstance(n.args[1], ast.Name) and n.args[1].id in self.STR_IS \
                     and n.args[1].id not in env:
                 a = self.expr(n.args[0], env)
@@ -996,6 +1078,8 @@ class Tr:
             return self.strict([r], lambda c: "pyo_rfind_char %d (%s)" % (ord(args[0].const), c[0]), INT)
         if m == "rfind" and tys == [STR]:
             return self.strict([r, args[0]], lambda c: "pyo_rfind (%s) (%s)" % (c[1], c[0]), INT)
+        if m == "rjust" and tys == [INT]:
+            return self.strict([r, args[0]], lambda c: "pyo_rjust (%s) (%s)" % (c[0], c[1]), STR)
         if m == "ljust" and tys == [INT]:
             return self.strict([r, args[0]], lambda c: "pyo_ljust (%s) (%s)" % (c[0], c[1]), STR)
         self.err(n, "unsupported method .%s(%s)" % (m, ", ".join(map(str, tys))))
@@ -1034,7 +1118,7 @@ class Tr:
         if any(a.partial for a in args):
             self.err(n, "argument of %s may raise" % ast.unparse(n.func))
         code = "%s %s" % (o["code"], " ".join("(%s)" % a.code for a in args))
-        return E(code, o["ret"], partial=o["raises"])
+        return E(code, o["ret"], partial=o["raises"], exc=o.get("exc", "?"))
 
     # ---- statements ------------------------------------------------------------------------
     @staticmethod
@@ -1057,7 +1141,10 @@ class Tr:
                 add(t.value.id)
             elif isinstance(t, ast.Attribute) and isinstance(t.value, ast.Subscript) and isinstance(t.value.value, ast.Name):
                 add(t.value.value.id)
+        sink = self.spec.get("write_sink")
         for s in stmts:
+            if sink and isinstance(s, ast.Expr) and isinstance(s.value, ast.Call) and same_ast(s.value.func, sink[0] + ".write"):
+                add(sink[1])
             if isinstance(s, ast.Assign):
                 for t in s.targets:
                     target(t)
@@ -1071,6 +1158,9 @@ class Tr:
                 self.assigned(s.orelse, acc)
             elif isinstance(s, ast.For):
                 target(s.target)
+                self.assigned(s.body, acc)
+                self.assigned(s.orelse, acc)
+            elif isinstance(s, ast.While):
                 self.assigned(s.body, acc)
             elif isinstance(s, ast.Try):
                 self.assigned(s.body, acc)
@@ -1116,6 +1206,7 @@ class Tr:
 
     def bind(self, name, e, env, node):
         """(let-prefix, suffix, new env) for name = e"""
+        self._env_before = dict(env)
         env = dict(env)
         ty = e.ty
         if name in env and env[name] == DYN and ty != DYN:
@@ -1127,6 +1218,10 @@ class Tr:
         cty = self.ctype(ty, node)
         env[name] = ty
         if e.partial:
+            h = self.route(e, node)
+            if h is not None:
+                return ("match %s with\n| Some %s =>\n" % (e.code, self.var(name)),
+                        "\n| None =>\n%s\nend" % indent(self.handled(h, self._env_before)), env)
             self.need_partial(node)
             return "obind (%s) (fun %s : %s =>\n" % (e.code, self.var(name), cty), ")", env
         return "let %s : %s := %s in\n" % (self.var(name), cty, e.code), "", env
@@ -1148,10 +1243,19 @@ class Tr:
             return go(env)
         if isinstance(s, ast.Expr) and isinstance(s.value, ast.Constant) and isinstance(s.value.value, str):
             return go(env)          # docstring
-        if isinstance(s, ast.Expr) and isinstance(s.value, ast.Call) and isinstance(s.value.func, ast.Attribute) \
-                and isinstance(s.value.func.value, ast.Name) and s.value.func.value.id == "logger" and "logger" not in env \
-                and s.value.func.attr in ("debug", "info", "warning", "error", "trace_lasio"):
+        if self.is_logger_call(s) and "logger" not in env:
             return go(env)          # logging is not translated (its arguments are assumed not to raise)
+        sink = self.spec.get("write_sink")
+        if sink and isinstance(s, ast.Expr) and isinstance(s.value, ast.Call) and same_ast(s.value.func, sink[0] + ".write") \
+                and len(s.value.args) == 1 and not s.value.keywords:
+            # file_object.write(e): the text written so far grows by e
+            e = self.expr(s.value.args[0], env)
+            if e.ty != STR or env.get(sink[1]) != STR:
+                self.err(s, "write of %s" % (e.ty,))
+            pre, post, env2 = self.bind(sink[1], self.strict([e], lambda c: "(%s ++ %s)" % (self.var(sink[1]), c[0]), STR), env, s)
+            return pre + go(env2) + post
+        if isinstance(s, ast.While):
+            return self.while_stmt(s, env, go)
         if isinstance(s, ast.Return):
             if rest:
                 self.err(rest[0], "statement after return")
@@ -1222,17 +1326,96 @@ class Tr:
             static = self.static_test(s.test, env)
             if static is not None:
                 return self.stmts(s.body if static else s.orelse, env, go)
-            if not self.has_return([s]):
+            if not s.orelse and all(self.is_logger_call(b) for b in s.body):
+                return go(env)      # only logs: skipped like the logging itself (the test is assumed not to raise)
+            nar = self.narrow_test(s.test, env)
+            if nar is not None:
+                return self.if_narrow(s, env, go, nar)
+            if not self.has_return([s]) and not self.handlers:
                 return self.join_if(s, env, go)
             t = self.test(s.test, env)
             a = self.stmts(s.body, env, go)
             b = self.stmts(s.orelse, env, go)
+            h = self.route(t, s) if t.partial else None
+            if h is not None:
+                v = self.fresh()
+                return "match %s with\n| Some %s =>\n  if %s then\n%s\n  else\n%s\n| None =>\n%s\nend" % (
+                    t.code, v, v, indent(a, 4), indent(b, 4), indent(self.handled(h, env)))
             if t.partial:
                 self.need_partial(s)
                 v = self.fresh()
                 return "obind (%s) (fun %s =>\nif %s then\n%s\nelse\n%s)" % (t.code, v, v, indent(a), indent(b))
             return "if %s then\n%s\nelse\n%s" % (t.code, indent(a), indent(b))
         self.err(s, "unsupported statement %s" % type(s).__name__)
+
+    @staticmethod
+    def is_logger_call(s):
+        return isinstance(s, ast.Expr) and isinstance(s.value, ast.Call) and isinstance(s.value.func, ast.Attribute) \
+            and isinstance(s.value.func.value, ast.Name) and s.value.func.value.id == "logger" \
+            and s.value.func.attr in ("debug", "info", "warning", "error", "trace_lasio")
+
+    def narrow_test(self, t, env):
+        """(name, base type, is_none) for the test `name is None` / `name is not None` on an optional"""
+        if isinstance(t, ast.Compare) and len(t.ops) == 1 and isinstance(t.ops[0], (ast.Is, ast.IsNot)) and isinstance(t.left, ast.Name) \
+                and isinstance(t.comparators[0], ast.Constant) and t.comparators[0].value is None and is_type(env.get(t.left.id), "opt"):
+            return t.left.id, env[t.left.id][1], isinstance(t.ops[0], ast.Is)
+        return None
+
+    def if_narrow(self, s, env, go, nar):
+        """if x is None: A else: B on an optional x: a match; in B the name x is the value itself"""
+        name, base, is_none = nar
+        none_body, some_body = (s.body, s.orelse) if is_none else (s.orelse, s.body)
+        tmp = self.fresh()
+        env_some = dict(env)
+        env_some[name] = base
+        head = "let %s : %s := %s in\n" % (self.var(name), self.ctype(base, s), tmp)
+        if self.has_return([s]) or self.handlers:
+            a = self.stmts(none_body, env, go)
+            b = self.stmts(some_body, env_some, go)
+            return "match %s with\n| None =>\n%s\n| Some %s =>\n%s\nend" % (self.var(name), indent(a), tmp, indent(head + b))
+        return self.join_if(s, env, go, narrow=(name, tmp, head, none_body, some_body, env_some))
+
+    def while_stmt(self, s, env, go):
+        """while c: body -- a local fixpoint on fuel (declared per loop in the spec; out of fuel is None)"""
+        fuel = self.spec.get("while_fuel", {}).get(ast.unparse(s.test))
+        if fuel is None:
+            self.err(s, "while loop without a declared fuel")
+        if s.orelse or self.handlers or self.loop_ret:
+            self.err(s, "unsupported while loop")
+        for x in ast.walk(s):
+            if isinstance(x, (ast.Break, ast.Continue, ast.Return, ast.Raise, ast.FunctionDef, ast.Lambda, ast.For)) or (isinstance(x, ast.While) and x is not s):
+                self.err(x, "%s inside a while loop" % type(x).__name__)
+        touched = self.assigned(s.body, [])
+        state = [nm for nm in touched if env.get(nm) is not None]
+        if not state:
+            self.err(s, "a loop that changes no variable defined before it")
+        tup = "(" + ", ".join(self.var(nm) for nm in state) + ")" if len(state) > 1 else self.var(state[0])
+        pat = "'" + tup if len(state) > 1 else tup
+        sty = " * ".join("(%s)" % self.ctype(env[nm], s) for nm in state)
+        self.pmode.append(False)
+        self.in_try += 1          # neither the test nor the body may raise
+        try:
+            t = self.test(s.test, env)
+
+            def end(env2):
+                for nm in state:
+                    if env2.get(nm) != env[nm]:
+                        self.err(s, "the loop changes the type of %r" % nm)
+                return "loop_ fuel_ %s" % tup
+            body = self.stmts(s.body, env, end)
+        finally:
+            self.in_try -= 1
+            self.pmode.pop()
+        if t.partial:
+            self.err(s, "the loop test may raise")
+        env3 = dict(env)
+        for nm in touched:
+            if nm not in state:
+                env3[nm] = None
+        self.need_partial(s)
+        return ("obind ((fix loop_ (fuel_ : nat) (st_ : %s) {struct fuel_} : option (%s) :=\n"
+                "  match fuel_ with\n  | O => None\n  | S fuel_ =>\n    let %s := st_ in\n    if %s then\n%s\n    else Some st_\n  end) (%s) %s) (fun %s =>\n%s)") % (
+            sty, sty, pat, t.code, indent(body, 6), fuel, tup, pat, go(env3))
 
     def assign(self, s, env, go):
         if len(s.targets) != 1:
@@ -1372,6 +1555,8 @@ class Tr:
         return self.ret(self.expr(lam.body, env2), lam)
 
     def for_stmt(self, s, env, go):
+        if self.handlers:
+            self.err(s, "a loop inside try/except")
         for x in ast.walk(s):
             if isinstance(x, (ast.Break, ast.Continue, ast.Raise, ast.FunctionDef, ast.Lambda, ast.While)):
                 self.err(x, "%s inside a for loop" % type(x).__name__)
@@ -1492,6 +1677,24 @@ class Tr:
         if isinstance(h.type, ast.Name) and h.type.id == "AttributeError" and len(h.body) == 1 and isinstance(h.body[0], ast.Pass):
             # no supported operation on the declared types raises AttributeError
             return self.stmts(s.body, env, go)
+        CLASSES = ("TypeError", "IndexError", "KeyError", "ValueError")
+        if isinstance(h.type, ast.Name) and h.type.id in CLASSES and h.type.id not in env:
+            # try: BODY except <Class>: HANDLER -- every operation of BODY that raises <Class> continues with
+            # HANDLER (with the variables as they are at that point), then with what follows the try
+            ctx = dict(classes={h.type.id}, fn=lambda env_at: self.stmts(h.body, env_at, go))
+            self.handlers.append(ctx)
+
+            def go3(env2):
+                i = self.handlers.index(ctx)
+                saved, self.handlers = self.handlers, self.handlers[:i]
+                try:
+                    return go(env2)
+                finally:
+                    self.handlers = saved
+            try:
+                return self.stmts(s.body, env, go3)
+            finally:
+                self.handlers.remove(ctx)
         if h.type is not None:
             self.err(s, "unsupported except clause")
         # try: <return | name => an external call that may raise>  except: <handler>
@@ -1526,9 +1729,13 @@ class Tr:
                 self.in_try -= 1
         self.err(s, "unsupported try statement")
 
-    def join_if(self, s, env, go):
+    def join_if(self, s, env, go, narrow=None):
         names = self.assigned([s], [])
-        t = self.test(s.test, env)
+        if narrow is not None:
+            nname, ntmp, nhead, none_body, some_body, env_some = narrow
+            t = E("<narrow>", BOOL)
+        else:
+            t = self.test(s.test, env)
 
         def build(partial):
             envs = []
@@ -1536,6 +1743,10 @@ class Tr:
             def end(env2):
                 envs.append(env2)
                 return "<JOIN%d>" % (len(envs) - 1)
+            if narrow is not None:
+                a = self.stmts(none_body, env, end)
+                b = nhead + self.stmts(some_body, env_some, end)
+                return a, b, envs
             a = self.stmts(s.body, env, end)
             b = self.stmts(s.orelse, env, end)
             return a, b, envs
@@ -1576,6 +1787,12 @@ class Tr:
             b = b.replace("<JOIN%d>" % k, tup)
         names_tup = ("(" + ", ".join(self.var(nm) for nm in joined) + ")" if len(joined) > 1 else self.var(joined[0])) if joined else "_"
         pat = "'" + names_tup if len(joined) > 1 else names_tup
+        if narrow is not None:
+            head = "match %s with\n  | None =>\n%s\n  | Some %s =>\n%s\n  end" % (self.var(nname), indent(a, 4), ntmp, indent(b, 4))
+            if not partial:
+                return "let %s :=\n  (%s) in\n%s" % (pat, head, go(env3))
+            self.need_partial(s)
+            return "obind (%s) (fun %s =>\n%s)" % (head, pat, go(env3))
         if not partial:
             return "let %s :=\n  (if %s then\n%s\n  else\n%s) in\n%s" % (pat, t.code, indent(a, 4), indent(b, 4), go(env3))
         self.need_partial(s)
@@ -1631,6 +1848,8 @@ class Tr:
             binders.append("(%s : %s)" % (self.var(spec["kwarg"][0]), coq_type(spec["kwarg"][1])))
         for name in spec.get("opaque_tests", {}).values():
             binders.append("(%s : bool)" % self.var(name))
+        for name, cty in spec.get("opaque_params", []):
+            binders.append("(%s : %s)" % (self.var(name), cty))
         for p, t in spec.get("returns_lambda", []):
             binders.append("(%s : %s)" % (self.var(p), coq_type(t)))
         rty = coq_type(spec["ret"])
@@ -1658,7 +1877,9 @@ class Tr:
             out.append("Definition %s %s : %s :=\n%s." % (spec["coq"], " ".join(binders), rty, indent(code)))
         # how other translated functions call this one (positional parameters only)
         if not spec.get("opaque_tests") and not spec.get("returns_lambda") and not spec.get("kwarg"):
-            REGISTRY[(spec["cls"] + "." if spec.get("cls") else "") + spec["py"]] = dict(
+            qual = "%s.%s" % (spec["py"], spec["nested_name"]) if spec.get("nested_name") else \
+                (spec["cls"] + "." if spec.get("cls") else "") + spec["py"]
+            REGISTRY[qual] = dict(
                 coq=spec["coq"], args=[t for t in spec.get("self_attrs", {}).values()] + [t for _, t in spec["params"] if t is not None],
                 ret=spec["ret"], partial=self.fn_partial, ops=needs_ops, extra=list(spec.get("extra_binders", [])),
                 self_attrs=list(spec.get("self_attrs", {})))
@@ -1908,11 +2129,14 @@ class BlockTr(Tr):
                     continue
                 for i, st in enumerate(block):
                     if isinstance(st, ast.Assign) and len(st.targets) == 1 and isinstance(st.targets[0], ast.Name) \
-                            and st.targets[0].id == self.spec["anchor"] \
+                            and st.targets[0].id == self.spec.get("anchor") \
                             and ("anchor_value" not in self.spec or same_ast(st.value, self.spec["anchor_value"])):
                         found.append(block[i:])
+                    if "anchor_if" in self.spec and isinstance(st, ast.If) and same_ast(st.test, self.spec["anchor_if"]):
+                        found.append(block[i:])
         if len(found) != 1:
-            self.err(fn, "expected exactly one assignment to %s, found %d" % (self.spec["anchor"], len(found)))
+            self.err(fn, "expected exactly one anchor statement (%s), found %d" % (
+                self.spec.get("anchor") or self.spec.get("anchor_if"), len(found)))
         frag = found[0]
         if "length" in self.spec:
             frag = frag[:self.spec["length"]]       # ... or only the first statements of it
@@ -1933,6 +2157,46 @@ class BlockTr(Tr):
 
     def check_signature(self, fn):
         pass        # the declared parameters are the block's free variables
+
+
+class NestedDefTr(Tr):
+    """A function defined inside a big function, as a function of its own parameters and of the variables
+    of the enclosing function it reads (the spec's `free`, which it must not assign).  Parameter defaults
+    must be the source texts the spec declares; they are not translated (the pin theorems and the translated
+    call sites supply every argument)."""
+
+    def body_of(self, fn):
+        defs = [x for x in ast.walk(fn) if isinstance(x, ast.FunctionDef) and x is not fn and x.name == self.spec["nested_name"]]
+        if len(defs) != 1:
+            self.err(fn, "expected exactly one nested def %s, found %d" % (self.spec["nested_name"], len(defs)))
+        d = defs[0]
+        a = d.args
+        if a.vararg or a.kwarg or a.kwonlyargs or a.posonlyargs or d.decorator_list:
+            self.err(d, "unsupported parameter kinds")
+        if len(a.args) != self.spec["n_own"]:
+            self.err(d, "%s has %d parameters, expected %d" % (d.name, len(a.args), self.spec["n_own"]))
+        own = [p for p, _ in self.spec["params"][:len(a.args)]]
+        for dflt in a.defaults:
+            for x in ast.walk(dflt):
+                if isinstance(x, ast.Name):
+                    for y in ast.walk(fn):
+                        if isinstance(y, ast.Name) and isinstance(y.ctx, ast.Store) and y.id == x.id and y.lineno >= d.lineno:
+                            self.err(y, "%s is a parameter default of %s and is assigned after the def" % (x.id, d.name))
+        if [x.arg for x in a.args] != own:
+            self.err(d, "parameters are %s, expected %s" % ([x.arg for x in a.args], own))
+        want = self.spec.get("def_defaults", {})
+        got = dict(zip([x.arg for x in a.args][len(a.args) - len(a.defaults):], a.defaults))
+        if set(got) != set(want) or any(not same_ast(got[k], want[k]) for k in got):
+            self.err(d, "parameter defaults differ from the declared %s" % want)
+        free = [p for p, _ in self.spec["params"][len(a.args):]]
+        local = set(self.assigned(d.body, []))
+        for nm in free:
+            if nm in local and not nm.startswith("attr_"):
+                self.err(d, "%s assigns the enclosing variable %s" % (d.name, nm))
+        return d.body
+
+    def check_signature(self, fn):
+        pass
 
 
 SPECS = [
@@ -2025,6 +2289,33 @@ SPECS += [
     dict(py="__getitem__", file="las_items.py", cls="SectionItems", coq="py_section_getitem",
          params=[("self", LIST(ITEM)), ("key", STR)], ret=ITEM, self_attrs={"mnemonic_transforms": BOOL},
          self_methods={"mnemonic_compare": "SectionItems.mnemonic_compare"}),
+    dict(py="write", file="writer.py", cls=None, coq="py_len_numeric_field", translator=BlockTr,
+         anchor_if="len_numeric_field is None", length=1, result="len_numeric_field",
+         params=[("len_numeric_field", OPT(INT)), ("fmt", STR)], ret=INT,
+         extra_binders=[("{Smp : Type} (wops : write_ops Smp)", "wops")],
+         const_exprs={"fmt % np.pi": ("w_fmt_pi wops v_fmt", STR)},
+         while_fuel={"len(test_fmt) > len_numeric_field - 1": "S (Z.to_nat (pyo_len v_test_fmt))"}),
+    dict(py="write", file="writer.py", cls=None, coq="py_get_column_fmt", translator=NestedDefTr, nested_name="get_column_fmt",
+         n_own=1, params=[("j", INT), ("column_fmt", DICT(INT, STR)), ("fmt", STR)], ret=STR),
+    dict(py="write", file="writer.py", cls=None, coq="py_get_left_spacing", translator=NestedDefTr, nested_name="get_left_spacing",
+         n_own=1, params=[("j", INT), ("lhs_spacer", STR), ("spacer", STR)], ret=STR),
+    dict(py="write", file="writer.py", cls=None, coq="py_format_data_section_line", translator=NestedDefTr,
+         nested_name="format_data_section_line",
+         n_own=4, params=[("n", SAMPLE), ("fmt", STR), ("l", INT), ("spacing_chars", STR), ("null_text", OPT(STR))],
+         def_defaults={"l": "len_numeric_field", "spacing_chars": '" "'}, ret=STR,
+         extra_binders=[("{Smp : Type} (wops : write_ops Smp)", "wops")],
+         oracles={"np.isnan": dict(args=[SAMPLE], ret=BOOL, code="s_isnan wops", raises=True, exc="TypeError")},
+         const_exprs={"fmt % n": ("s_fmt wops v_fmt v_n", STR, "TypeError"),
+                      "str(n)": ("s_str wops v_n", STR),
+                      'str(las.well["NULL"].value)': ("v_null_text", STR, "KeyError")}),
+    dict(py="write", file="writer.py", cls=None, coq="py_write_data_rows", translator=BlockTr, anchor="twrapper", result="out_",
+         params=[("nrows", INT), ("ncols", INT), ("columns", LIST(LIST(SAMPLE))), ("wrap", BOOL), ("data_width", INT),
+                 ("lines", LIST(STR)), ("line_counter", INT), ("out_", STR), ("column_fmt", DICT(INT, STR)), ("fmt", STR),
+                 ("lhs_spacer", STR), ("spacer", STR), ("len_numeric_field", INT), ("null_text", OPT(STR))],
+         ret=STR, extra_binders=[("{Smp : Type} (wops : write_ops Smp)", "wops")], write_sink=("file_object", "out_"),
+         const_exprs={"textwrap.TextWrapper(width=data_width, break_long_words=False, break_on_hyphens=False)": ("v_data_width", INT),
+                      "twrapper.wrap(depth_slice)": ("w_wrap wops v_twrapper v_depth_slice", LIST(STR))},
+         local_calls=("get_column_fmt", "get_left_spacing", "format_data_section_line")),
     dict(py="_json_value", file="las.py", cls=None, coq="py_json_value",
          params=[("x", DYN)], ret=DYN, extra_binders=[("(jops : json_ops V)", "jops")],
          const_exprs={"isinstance(x, np.integer)": ("j_is_np_integer jops v_x", BOOL),
